@@ -49,7 +49,56 @@ pub fn sections(ctx: &Ctx) -> Vec<(&'static str, u64)> {
     }
     v.push(("w3-total", w3));
     v.push(("scaling", SCALING_FAMILIES.len() as u64 * 3));
+    v.push(("snippet-tokens", w5));
     v
+}
+
+/// E5 at token granularity on the snippets of the repository's own tests: every token lost,
+/// duplicated, or exchanged with its successor (a fixed, seed-independent universe)
+fn token_faults(src: &str) -> Vec<(String, String)> {
+    // units: words, punctuation characters, whitespace runs, quoted strings
+    let chars: Vec<char> = src.chars().collect();
+    let mut units: Vec<String> = Vec::new();
+    let mut i = 0;
+    while i < chars.len() {
+        let c = chars[i];
+        let mut j = i + 1;
+        if c.is_alphanumeric() || c == '_' {
+            while j < chars.len() && (chars[j].is_alphanumeric() || chars[j] == '_' || chars[j] == '.') {
+                j += 1;
+            }
+        } else if c.is_whitespace() {
+            while j < chars.len() && chars[j].is_whitespace() {
+                j += 1;
+            }
+        } else if c == '"' {
+            while j < chars.len() && chars[j] != '"' {
+                j += 1;
+            }
+            j = (j + 1).min(chars.len());
+        }
+        units.push(chars[i..j].iter().collect());
+        i = j;
+    }
+    let solid: Vec<usize> = (0..units.len())
+        .filter(|k| !units[*k].trim().is_empty())
+        .collect();
+    let mut out = Vec::new();
+    let join = |u: &[String]| u.concat();
+    for (n, &k) in solid.iter().enumerate() {
+        let mut a = units.clone();
+        a.remove(k);
+        out.push((format!("lose token #{n} {:?}", units[k]), join(&a)));
+        let mut b = units.clone();
+        b.insert(k, format!("{} ", units[k]));
+        out.push((format!("duplicate token #{n} {:?}", units[k]), join(&b)));
+        if let Some(&k2) = solid.get(n + 1) {
+            let mut c = units.clone();
+            c.swap(k, k2);
+            out.push((format!("swap tokens #{n},#{} {:?} {:?}", n + 1, units[k], units[k2]), join(&c)));
+        }
+    }
+    out
 }
 
 /// Families of programs with one nesting / repetition parameter n. Compiled at n = 0, 4, 8, 16 the
@@ -441,6 +490,34 @@ pub fn cases(ctx: &Ctx, section: &str, i: u64) -> Vec<Case> {
                     out.push(total_case(
                         &format!("W5:snippet#{}@{}", lo + n, target.name()),
                         snippet_fs(src),
+                        t,
+                        key(&mut rng),
+                        STACK_MAIN,
+                    ));
+                }
+            }
+            out
+        }
+        "snippet-tokens" => {
+            let lo = (i * SNIPPET_BATCH) as usize;
+            let hi = (lo + SNIPPET_BATCH as usize).min(ctx.snippets.len());
+            let stride = if ctx.tier == Tier::Quick { 10 } else { 1 };
+            let residue = ctx.rng().sub("snippet-tokens").sub_n("residue", i).below(stride);
+            let mut out = Vec::new();
+            let mut n = 0u64;
+            for (si, src) in ctx.snippets[lo..hi].iter().enumerate() {
+                for (label, text) in token_faults(src) {
+                    n += 1;
+                    if n % stride != residue {
+                        continue;
+                    }
+                    let target = [Target::Dx, Target::Vk, Target::Msl][(n % 3) as usize];
+                    let mut t = TaskSpec::compile(0, "test.rssl", target);
+                    t.no_pipeline = true;
+                    t.validate_layout = n % 5 == 0;
+                    out.push(total_case(
+                        &format!("W5:snippet#{}@{} {label}", lo + si, target.name()),
+                        snippet_fs(&text),
                         t,
                         key(&mut rng),
                         STACK_MAIN,
